@@ -447,31 +447,43 @@ impl Run<'_> {
     }
 
     /// Encodes the plan's feeds with no drains and no arena operations.
-    fn replica_wire(&self, stats: &mut Stats) -> Vec<u8> {
+    /// Encodes the plan's feeds again with every reader-driven feed replaced
+    /// by a copy of what the reader delivered.  With `keep_schedule` the drain
+    /// and arena operations are replayed too; without it they are left out.
+    fn replica_wire(&self, keep_schedule: bool) -> Vec<u8> {
         let mut enc = Enc::new(self.public, OwningIovec::new(), self.m1, self.m2);
         let mut plain = Vec::new();
+        let mut wire = Vec::new();
+        let mut spare: Option<ByteArena> = None;
         let mut scratch_log = LogHash::new();
         let mut scratch_vs = Vec::new();
         let mut la = 0;
         let mut scratch_stats = Stats::default();
-        let _ = stats;
         for (i, op) in self.plan.ops.iter().enumerate() {
-            if matches!(op.k, "feed" | "lit" | "pad_to") {
-                // Reader-driven feeds are replaced by a copy of what they delivered.
-                let bytes = if matches!(op.k, "feed") && (op.a[0] % 6 == 2 || op.a[0] % 6 == 3) {
-                    let src = pool_slice(op.a[1], op.a[2]);
-                    let (script, tail_eof) = script_from(op.a[3], self.hard);
-                    let want = ref_read_n(src.len(), &script, tail_eof, src.len(), attempts_from(op.a[3] >> 7));
-                    let n = want.result.unwrap_or(0);
-                    enc.encode_copy(&src[..n]);
-                    src[..n].to_vec()
-                } else {
-                    apply_feed(&mut enc, op, &plain, self.m1, self.m2, self.hard, true, &mut la, &mut scratch_stats, &mut scratch_log, &mut scratch_vs, i)
-                };
-                plain.extend_from_slice(&bytes);
+            match op.k {
+                "feed" | "lit" | "pad_to" => {
+                    // Reader-driven feeds are replaced by a copy of what they delivered.
+                    let bytes = if matches!(op.k, "feed") && (op.a[0] % 6 == 2 || op.a[0] % 6 == 3) {
+                        let src = pool_slice(op.a[1], op.a[2]);
+                        let (script, tail_eof) = script_from(op.a[3], self.hard);
+                        let want = ref_read_n(src.len(), &script, tail_eof, src.len(), attempts_from(op.a[3] >> 7));
+                        let n = want.result.unwrap_or(0);
+                        enc.encode_copy(&src[..n]);
+                        src[..n].to_vec()
+                    } else {
+                        apply_feed(&mut enc, op, &plain, self.m1, self.m2, self.hard, true, &mut la, &mut scratch_stats, &mut scratch_log, &mut scratch_vs, i)
+                    };
+                    plain.extend_from_slice(&bytes);
+                }
+                "edrain" if keep_schedule => {
+                    let _ = drain(enc.consumer(), op.a[0], op.a[1] as usize, &mut wire, &mut scratch_stats);
+                }
+                "earena" if keep_schedule => arena_op(enc.consumer(), op.a[0], op.a[1] as usize, &mut spare, &mut scratch_stats),
+                _ => {}
             }
         }
-        enc.finish().flatten().unwrap_or_else(|v| v)
+        wire.extend_from_slice(&enc.finish().flatten().unwrap_or_else(|v| v));
+        wire
     }
 
     fn execute(&mut self, stats: &mut Stats, log: &mut LogHash) {
@@ -583,8 +595,12 @@ impl Run<'_> {
                 self.push("C07", "C07.encoder_canonical", detail.clone(), usize::MAX);
                 self.push("C02", "C02.not_function_of_input", format!("{} (and the one-shot encoding differs too)", detail), usize::MAX);
             } else {
-                let replica = self.replica_wire(stats);
-                if replica == ref_wire {
+                let uses_reads = plan.ops.iter().any(|o| matches!(o.k, "feed" | "lit" | "pad_to") && matches!(o.a[0] % 6, 2 | 3));
+                if uses_reads && self.replica_wire(true) == ref_wire {
+                    // Same feeds, drains and arena operations, but the bytes that came
+                    // through read_n / encode_read are copied in instead: correct.
+                    self.push("C17", "C17.output_after_read", format!("{}; with the reader-driven feeds replaced by copies of what the readers delivered the output is correct", detail), usize::MAX);
+                } else if self.replica_wire(false) == ref_wire {
                     self.push("C09", "C09.drain_changed_output", format!("{}; the same feeds without drains/arena operations encode correctly", detail), usize::MAX);
                 } else {
                     self.push("C02", "C02.split_dependent", format!("{}; a one-shot encoding of the same bytes is correct", detail), usize::MAX);
